@@ -716,6 +716,16 @@ def _probes_ops(ctx, E, grid, gname, n):
   _deriv_probe(ctx, E, 'explicit_terms:shallow-water', eq.explicit_terms, x, v, info)
   _deriv_probe(ctx, E, 'implicit_terms:shallow-water', eq.implicit_terms, x, v, info)
   _deriv_probe(ctx, E, 'implicit_inverse:shallow-water', lambda s: eq.implicit_inverse(s, 0.01), x, v, dict(info, eta=0.01))
+  # finiteness at a fluid AT REST (zero vorticity and divergence in every layer, a height bump): an admissible state at
+  # which a formulation through the wind SPEED (sqrt of u^2 + v^2) has an infinite derivative although the primal is fine
+  xr = jax.tree_util.tree_map(jnp.zeros_like, x)
+  xr = type(x)(xr.vorticity, xr.divergence, x.potential)
+  _deriv_probe(ctx, E, 'explicit_terms-at-rest:shallow-water', eq.explicit_terms, xr, v, info, fd=False)
+  _deriv_probe(ctx, E, 'step-at-rest:shallow-water:sil3', E.ti.imex_rk_sil3(eq, 0.005), xr, v, info, fd=False)
+  # a quiescent deep layer under a moving upper layer
+  if np.shape(x.vorticity)[0] >= 2:
+    xq = type(x)(x.vorticity.at[-1].set(0.0), x.divergence.at[-1].set(0.0), x.potential)
+    _deriv_probe(ctx, E, 'explicit_terms-quiescent-layer:shallow-water', eq.explicit_terms, xq, v, info, fd=False)
   # filters
   tree = dict(a=J(_rm(rng, grid, n, 1.0)), b=J(_rm(rng, grid, 1, 1.0)), t=J(1.5))
   dtree = dict(a=J(_rm(rng, grid, n, 1.0)), b=J(_rm(rng, grid, 1, 1.0)), t=J(0.3))
